@@ -33,12 +33,15 @@ SPEC = dict(
          "exprkey/identity; binder (e contains Derivative/Subs nodes, subs only). distinct = distinct op lines; "
          "non-trivial = all. impl_stats: value_checked_exact/numeric/not_checked, *_points_*, absent_key_cases, "
          "identity_cases, modes_agree_cases (subs = xreplace = msubs = ssubs on derivative-free inputs), "
-         "expression_key_cases (cache equality and identity only).",
+         "expression_key_cases (cache, identity, certificate), expression_key_fresh_image_cases (value oracle for "
+         "expression keys), binder_*_not_eq_value_checked.",
     not_covered=[
         "Lean certificate: inputs containing Derivative/Subs nodes are SKIP:unsupported-* (value/cache oracle only); "
         "results in which the library re-canonicalised the argument of a function or a non-integer power after the "
         "substitution are SKIP:atoms-differ (~20% of the generated cases); complex-number keys (I) are SKIP:complex-key",
-        "value preservation has no meaning for non-symbol keys; for those only cache independence, the identity map "
+        "normal forms above the size guard (`Diff.affordable`) are SKIP:too-large (~1% of thorough cases)",
+        "value preservation has no meaning for non-symbol keys in general; when every image is a fresh symbol the "
+        "oracle checks 'result at w := value(key) has the value of e'; for those only cache independence, the identity map "
         "and agreement with the model's matching semantics (certificate) are checked",
         "subs_value_partial is over the reals with Mathlib's total functions (x/0 = 0, rpow for non-integer powers); "
         "complex points are covered by the numeric oracle only",
